@@ -37,7 +37,12 @@ HFiles(w) == {{File(10 * w + 1, B0, w, HToks)},
               {File(10 * w + 1, B0, w, {"c", "d"}), File(10 * w + 2, B2, w, HToks)},
               {File(10 * w + 1, B0, w, {"c"}), File(10 * w + 2, B0, w, {"c", "s\nf1\nf2"})}}
 HXs == {D \div 4, (3 * D) \div 4}
-Replies == {200, 400, 500}
+(* 200 acknowledges; any 4xx refuses (the report is deleted and never sent    *)
+(* again); every other status (5xx, and 2xx other than 200) leaves the report *)
+(* in place to be sent again                                                  *)
+Replies == {200, 204, 400, 404, 500, 503}
+Acked(r) == r = 200
+Refused(r) == r \in 400..499
 
 Reported == DOMAIN built
 
@@ -70,9 +75,9 @@ Run(c, x, reply) ==
        IN /\ archive' = [w \in DOMAIN archive \cup new |-> IF w \in new THEN {f \in pending : f.week = w} ELSE archive[w]]
           /\ built' = [w \in DOMAIN built \cup new |-> IF w \in new THEN [cfg |-> c, x |-> x, run |-> nrun + 1] ELSE built[w]]
           /\ posts' = send
-          /\ ready' = IF reply = 500 THEN send ELSE {}
-          /\ uploaded' = IF reply = 200 THEN uploaded \cup send ELSE uploaded
-          /\ dropped' = IF reply = 400 THEN dropped \cup send ELSE dropped
+          /\ ready' = IF ~Acked(reply) /\ ~Refused(reply) THEN send ELSE {}
+          /\ uploaded' = IF Acked(reply) THEN uploaded \cup send ELSE uploaded
+          /\ dropped' = IF Refused(reply) THEN dropped \cup send ELSE dropped
     /\ pending' = {}
     /\ nrun' = nrun + 1
     /\ last' = [op |-> "run", cfg |-> c, x |-> x, reply |-> reply]
